@@ -1,6 +1,7 @@
 package checks
 
 import (
+	"errors"
 	"fmt"
 	"io"
 	"strings"
@@ -423,8 +424,24 @@ func c05Reader(text string) io.Reader {
 		return &crChunkReader{s: text}
 	case 3:
 		return iotest.DataErrReader(strings.NewReader(text))
+	case 4:
+		return &thenFailReader{s: text}
 	}
 	return strings.NewReader(text)
+}
+
+// thenFailReader delivers the whole text and from then on fails with an
+// error that is not io.EOF (a connection that was reset): the input has ended
+// all the same.
+type thenFailReader struct{ s string }
+
+func (r *thenFailReader) Read(p []byte) (int, error) {
+	if len(r.s) == 0 {
+		return 0, errors.New("connection reset by peer")
+	}
+	n := copy(p, r.s)
+	r.s = r.s[n:]
+	return n, nil
 }
 
 type crChunkReader struct{ s string }
@@ -506,9 +523,12 @@ func checkC05(c *Ctx) (string, bool, []string) {
 			c05ErrPos(c, replayStr(c, "input"), replayInt(c, "offset"), local)
 		case "errgen":
 			c05ErrPosGen(c, replayInt(c, "idx"), local)
+		case "direct":
+			c05AfterAnother(c)
 		}
 		return rule, false, assume
 	}
+	c05AfterAnother(c) // first and sequentially: nothing else has parsed yet
 	n := len(lex)
 	mon.Parallel(n*n, c.Workers, func(idx int) {
 		local := map[string]int64{}
@@ -739,6 +759,42 @@ func c05ErrPos(c *Ctx, base string, off int, local map[string]int64) {
 			continue
 		}
 		local["errpos.prefixed.checked"]++
+	}
+}
+
+// c05AfterAnother: the error a text gets must not depend on what was parsed
+// before it in this process - through the package-level entry points, which
+// may keep parsers around, compared with a parser made for this text alone.
+func c05AfterAnother(c *Ctx) {
+	r := c.R
+	warm := []string{"host = 'server01' AND value > 10", "a + b * (c - 1)", "time > now() - 1h\nAND x =~ /re/", "\"quoted name\" = 'v' OR f(x, 'y') < 2.5"}
+	probes := []string{"'abc", "\"abc", "  'abc", "\n'abc", "'a\\qb'", "'", "\"", "'abc\ndef'", "/* open", "?", "a + ?", "'ok' = 'abc", "1 +", "(a", "x =~ /(/", "\r\n  \"open", "\u00e9 = 'abc"}
+	for _, w := range warm {
+		for _, pr := range probes {
+			var e1, e2, e3, e4, e5, e6 error
+			if p, pv, stk := mon.Try(func() {
+				_, _ = influxql.ParseExpr(w)
+				_, e1 = influxql.ParseExpr(pr)
+				_, e2 = influxql.NewParser(strings.NewReader(pr)).ParseExpr()
+				_, _ = influxql.ParseStatement("SELECT v FROM m WHERE " + w)
+				_, e3 = influxql.ParseStatement("SELECT v FROM m WHERE " + pr)
+				_, e4 = influxql.NewParser(strings.NewReader("SELECT v FROM m WHERE " + pr)).ParseStatement()
+				_, _ = influxql.ParseQuery("SELECT v FROM m WHERE " + w)
+				_, e5 = influxql.ParseQuery("SELECT v FROM m WHERE " + pr)
+				_, e6 = influxql.NewParser(strings.NewReader("SELECT v FROM m WHERE " + pr)).ParseQuery()
+			}); p {
+				r.Violation("panic-in-parse", map[string]interface{}{"sub": "direct", "input": pr, "why": fmt.Sprint(pv), "stack": stk})
+				return
+			}
+			r.Eval(3)
+			for i, pair := range [][2]error{{e1, e2}, {e3, e4}, {e5, e6}} {
+				if fmt.Sprint(pair[0]) != fmt.Sprint(pair[1]) {
+					r.Violation("error-position", map[string]interface{}{"sub": "direct", "input": pr, "why": fmt.Sprintf("entry point %d (0 ParseExpr, 1 ParseStatement, 2 ParseQuery): after parsing %q the text %q reports %q; a parser made for it alone reports %q", i, w, pr, fmt.Sprint(pair[0]), fmt.Sprint(pair[1]))})
+					return
+				}
+			}
+			r.Count("errpos.after-another-parse", 1)
+		}
 	}
 }
 
